@@ -68,7 +68,7 @@ def _plain(draw, kind):
         spec["circular"] = draw(st.booleans()) and n >= 3
         spec["comments"] = draw(st.integers(1, 3))
         spec["second"] = draw(st.booleans())
-        spec["title"] = draw(st.sampled_from(["title", "my sequence", "seq_A", "XYZ"]))
+        spec["title"] = draw(st.sampled_from(["title", "my sequence", "seq_A", "XYZ", "TAG", "GATTACA", "CAT"]))
     else:
         spec["second"] = draw(st.booleans())
         spec["blank_end"] = draw(st.booleans())
